@@ -348,24 +348,26 @@ impl EventListenerFuture for RawRead<'_> {
                 }
             } else {
                 // Start listening for "no writer" events.
-                let load_ordering = if this.listener.is_none() {
+                if this.listener.is_none() {
                     *this.listener = Some(this.lock.no_writer.listen());
 
                     // Make sure there really is no writer.
-                    Ordering::SeqCst
+                    *this.state = this.lock.state.load(Ordering::SeqCst);
                 } else {
                     // Wait for the writer to finish.
                     ready!(strategy.poll(this.listener, cx));
 
-                    // Notify the next reader waiting in list.
-                    this.lock.no_writer.notify(1);
-
                     // Check the state again.
-                    Ordering::Acquire
-                };
+                    *this.state = this.lock.state.load(Ordering::Acquire);
 
-                // Reload the state.
-                *this.state = this.lock.state.load(load_ordering);
+                    // Notify the next reader waiting in list, unless another writer got in
+                    // first: it will trigger the "no writer" event when it is done, and
+                    // passing the notification on now would only make the waiting readers
+                    // wake each other in a loop.
+                    if *this.state & WRITER_BIT == 0 {
+                        this.lock.no_writer.notify(1);
+                    }
+                }
             }
         }
     }
